@@ -53,6 +53,42 @@ META = dict(
 )
 
 LOGICS_T = ["QF_UF", "QF_LRA", "QF_LIA", "QF_UFLRA", "QF_UFLIA"]
+
+
+def evaluate(sig, model, asserts):
+    """solvercheck.evaluate, waiting out a concurrent rebuild of the extracted evaluator by another check"""
+    import time
+    for attempt in range(60):
+        try:
+            r = solvercheck.evaluate(sig, model, asserts)
+            if "error" in r and "No such file" in str(r["error"]):
+                raise FileNotFoundError(r["error"])
+            return r
+        except (FileNotFoundError, PermissionError, OSError):
+            time.sleep(3)
+            solvercheck._sem_exe = None
+    return solvercheck.evaluate(sig, model, asserts)
+
+
+def run_ref(tool, text, timeout=20):
+    import time
+    for attempt in range(20):
+        try:
+            return vlib.run_ref(tool, text, timeout=timeout)
+        except (FileNotFoundError, PermissionError, OSError):
+            time.sleep(2)
+    return vlib.run_ref(tool, text, timeout=timeout)
+
+
+def run_osmt(text, timeout=30):
+    """vlib.run_opensmt, waiting out a concurrent relink of the shared binary (other checks rebuild build/impl)"""
+    import time
+    for attempt in range(40):
+        try:
+            return vlib.run_opensmt(text, timeout=timeout)
+        except (PermissionError, FileNotFoundError, OSError):
+            time.sleep(3)
+    return vlib.run_opensmt(text, timeout=timeout)
 SAMPLES = {}
 
 
@@ -346,6 +382,8 @@ def part_terms(ctx, M, H):
                 exp = None
         if exp is None or N2.wire_str(exp) != N2.wire_str(want[0]):
             cause = term_failure_cause(M, lets, names, want[0], [exp] if exp is not None else got)
+            if cause == "unexplained" and any(re.match(r"^\?def\d+$", nm) for nm in names):
+                cause = "let-name-capture"
             ctx.violation("dump-with-lets:" + cause, "dumpWithLets printed %r; with its lets expanded it reads as %s, the term built is %s" %
                           (lets[:300], N2.wire_str(exp)[:300] if exp is not None else st, N2.wire_str(want[0])[:300]),
                           dict(request=req, printed=lets))
@@ -638,10 +676,11 @@ def gen_case(rng, M, mode, profile):
 
 
 def run_concrete(c, M, extra_opts=()):
-    text, cmds = N2.rename_text(c.plain, c.ren, M)
+    text, cmds, conc = N2.rename_text(c.plain, c.ren, M)
+    c.conc = conc
     if extra_opts:
         text = "".join("(set-option %s)\n" % o for o in extra_opts) + text
-    rc, out, err = vlib.run_opensmt(text, timeout=30)
+    rc, out, err = run_osmt(text, timeout=30)
     segs, rest = N2.split_segments(out, len(cmds))
     return text, cmds, rc, out, segs
 
@@ -661,6 +700,15 @@ def classify(M, c, artefact, text, extra=None):
     cs = names_causes(M, c, text)
     if cs and cs[0] != "unexplained":
         return "%s:%s" % (artefact, cs[0])
+    if artefact == "model" and extra == "not-readable-by-opensmt":
+        m = re.findall(r"\(as ([^ ()|]+|\|[^|]*\|) ", text)
+        params = set(re.findall(r"\(\(?([xyr]!?\d+) ", text))
+        if any(x in params for x in m):
+            return "model:parameter-qualified"
+    if artefact == "dump-query" and any(re.match(r"^\?def\d+$", nm) for nm in c.ren.fun.values()) and "(let ((?def" in text:
+        return "dump-query:let-name-capture"
+    if any(nm.startswith("@") and ("(as %s " % nm) in text for nm in c.ren.fun.values()):
+        return "%s:abstract-prefix-user-symbol" % artefact
     if any(M.quote(s) != s for s in c.ren.sort.values()):
         return "%s:sort-name-unquoted" % artefact
     if extra:
@@ -730,12 +778,12 @@ def check_model(ctx, M, c, seg, frames, sig, concrete_text, idx):
                       "declared symbol" % (clash[1], clash[0]), replay)
     # semantic: the plain image of the printed model satisfies the plain assertions (verified evaluator)
     asserts = [solvercheck.strip_named(a) for a in solvercheck.active_assertions(frames)]
-    ev = solvercheck.evaluate(sig, plain_defs, asserts)
+    ev = evaluate(sig, plain_defs, asserts)
     if "error" in ev or not ev.get("ok"):
         # is it the naming?  compare with the model opensmt prints for the plain script
         rc, res, out, err = solvercheck.run_aligned(c.plain)
         pm = [a for (k, _, _, _, a) in res if k == "get-model"]
-        ev2 = solvercheck.evaluate(sig, pm[0], asserts) if pm and isinstance(pm[0], list) else dict(error="no plain model")
+        ev2 = evaluate(sig, pm[0], asserts) if pm and isinstance(pm[0], list) else dict(error="no plain model")
         if "error" not in ev2 and ev2.get("ok"):
             ctx.violation("model:reads-back-different", "the model printed for the renamed script, read back and mapped to plain names, does not satisfy "
                           "the assertions (%s) although the model of the plain script does" % (ev.get("error") or ev.get("asserts")), replay)
@@ -754,12 +802,12 @@ def abstract_values(seg_wire, acc):
 
 
 def decl_prelude(c, M, concrete_text, with_funs=True):
-    """the declarations of the concrete script (sorts always; functions on request), as text lines"""
-    out = []
-    for l in concrete_text.split("\n"):
-        if l.startswith("(declare-sort") or (with_funs and (l.startswith("(declare-fun") or l.startswith("(declare-const"))):
-            out.append(l)
-    return out
+    """the declarations of the concrete script (sorts always; functions on request), one text per command"""
+    return [txt for (h, txt) in c.conc if h == "declare-sort" or (with_funs and h in ("declare-fun", "declare-const"))]
+
+
+def concrete_asserts(c):
+    return [txt for (h, txt) in c.conc if h == "assert"]
 
 
 def reread_with_tools(ctx, M, c, art, concrete_text, body_lines, expect, replay, absvals=()):
@@ -775,7 +823,7 @@ def reread_with_tools(ctx, M, c, art, concrete_text, body_lines, expect, replay,
                 abs_decl.append("(assert (distinct %s))" % " ".join(l))
     script = ["(set-logic %s)" % logic] + body_lines(abs_decl) + ["(check-sat)"]
     text = "\n".join(script) + "\n"
-    rc, out, err = vlib.run_opensmt(text, timeout=30)
+    rc, out, err = run_osmt(text, timeout=30)
     ans = out.strip().split("\n")[-1] if out.strip() else ""
     if "(error" in out or rc != 0 or (expect and ans != expect):
         ctx.violation(classify(M, c, art, text, "not-readable-by-opensmt"), "opensmt does not accept what it printed (%s): %s" % (art, out.strip()[:300]),
@@ -786,7 +834,7 @@ def reread_with_tools(ctx, M, c, art, concrete_text, body_lines, expect, replay,
         if not base:
             ctx.count("foreign:%s:n/a(input names not accepted)" % tool)
             continue
-        rc2, out2 = vlib.run_ref(tool, text, timeout=20)
+        rc2, out2 = run_ref(tool, text, timeout=20)
         ans2 = out2.strip().split("\n")[-1] if out2.strip() else ""
         ctx.count("foreign:%s:checked" % tool)
         if "error" in out2.lower() or (expect and ans2 not in (expect, "unknown")):
@@ -796,17 +844,13 @@ def reread_with_tools(ctx, M, c, art, concrete_text, body_lines, expect, replay,
     return True
 
 
-_BASE = {}
-
-
 def baseline_ok(c, M, tool, concrete_text, abs_decl):
-    k = (id(c), tool, tuple(abs_decl))
+    if not hasattr(c, "_base"):
+        c._base = {}
+    _BASE = c._base
+    k = (tool, tuple(abs_decl))
     if k not in _BASE:
-        lines = ["(set-logic %s)" % c.logic]
-        for l in concrete_text.split("\n"):
-            if l.startswith("(declare-") or l.startswith("(assert"):
-                lines.append(l)
-        lines[1:1] = []
+        lines = ["(set-logic %s)" % c.logic] + [txt for (h, txt) in c.conc if h.startswith("declare-") or h == "assert"]
         # the abstract values are declared after the sorts
         out = []
         done = False
@@ -818,10 +862,8 @@ def baseline_ok(c, M, tool, concrete_text, abs_decl):
         if not done:
             out += list(abs_decl)
         out.append("(check-sat)")
-        rc, o = vlib.run_ref(tool, "\n".join(out) + "\n", timeout=20)
+        rc, o = run_ref(tool, "\n".join(out) + "\n", timeout=20)
         _BASE[k] = "error" not in o.lower() and rc == 0
-        if len(_BASE) > 4000:
-            _BASE.clear()
     return _BASE[k]
 
 
@@ -902,10 +944,10 @@ def script_case(ctx, M, c):
                 abstract_values(got, av)
                 inner = seg.strip()
                 inner = inner[1:-1] if inner.startswith("(") and inner.endswith(")") else inner
-                asserts = [l for l in concrete.split("\n") if l.startswith("(assert")]
+                asserts = concrete_asserts(c)
 
                 def body(abs_decl, inner=inner, asserts=asserts):
-                    return N2_decl_sorts(concrete) + abs_decl + [inner] + asserts
+                    return decl_prelude(c, M, concrete, with_funs=False) + abs_decl + [inner] + asserts
                 reread_with_tools(ctx, M, c, "model", concrete, body, "sat", dict(replay0, printed=seg), av)
         elif h == "get-value":
             if status != "sat":
@@ -931,15 +973,22 @@ def script_case(ctx, M, c):
         check_dumps(ctx, M, c, dump_base, qs, concrete, out)
 
 
-def N2_decl_sorts(concrete):
-    return [l for l in concrete.split("\n") if l.startswith("(declare-sort")]
-
-
 # ---- get-value
 def check_value(ctx, M, c, seg, cmd, idx, segs, concrete, out):
     """returns True when standard output died in this command"""
     replay = dict(script=concrete, printed=seg, output=out)
     terms = cmd[1]
+    errs = re.findall(r'^\(error "([^"]*)"\)\n', seg, re.M)
+    if errs:
+        amb = [e for e in errs if e.startswith("Ambiguous symbol")]
+        had_model = any(h == "get-model" for (h, _) in c.conc)
+        if amb and had_model:
+            sample("model:formal-arg-clash", dict(case="get-value after get-model", script=concrete, output=out))
+            ctx.violation("model:formal-arg-clash", "after get-model a later get-value is refused with %r: get-model created a formal parameter that carries the name "
+                          "of a declared symbol (different sort), the symbol became ambiguous" % amb[0], replay)
+        else:
+            ctx.violation(classify(M, c, "get-value", seg, "request-refused"), "get-value refused a well-sorted request: %r" % errs[0], replay)
+        return False
     specs = [ast_spec(t, c.ren) for t in terms]
     pred = {}
     for v in ("f", "r"):
@@ -1015,7 +1064,7 @@ def check_assignment(ctx, M, c, seg, frames, idx, segs, concrete, out):
     for v, p in (("f", pf), ("r", pr)):
         if p[0] != "OK":
             continue
-        pat = "^" + re.escape(un(p[1])).replace("VALUE", "(true|false)") + r"\n$"
+        pat = "^" + re.escape(un(p[1])).replace("VALUE", "(true|false|unknown)") + r"\n$"
         if re.match(pat, seg, re.S):
             variant = v
             break
@@ -1027,7 +1076,10 @@ def check_assignment(ctx, M, c, seg, frames, idx, segs, concrete, out):
     if ok:
         ctx.count("get-assignment:reads-back")
         return False
-    if not labels:
+    if st == "ok" and len(got) == 1 and isinstance(got[0], list) and any(isinstance(p, list) and len(p) == 2 and p[1] == ("y", "unknown") for p in got[0]) \
+            and all(isinstance(p, list) and len(p) == 2 and p[0] == ("y", l) for p, l in zip(got[0], labels)) and len(got[0]) == len(labels):
+        sig = "get-assignment:unknown-value"
+    elif not labels:
         sig = "get-assignment:stray-paren"
     elif any("%" in l for l in labels):
         sig = "get-assignment:format-string"
@@ -1055,7 +1107,7 @@ def check_assignment_dead(ctx, M, c, frames, concrete, out):
 def z3_equiv(c, sig_decls, a, b):
     """plain formulas a, b equivalent? (z3, untrusted: used to find a failing case, a 'no' is reported as violation with both texts)"""
     lines = ["(set-logic %s)" % c.logic] + sig_decls + ["(assert (distinct %s %s))" % (smtlib.sx_str(a), smtlib.sx_str(b)), "(check-sat)"]
-    rc, out = vlib.run_ref("z3", "\n".join(lines) + "\n", timeout=20)
+    rc, out = run_ref("z3", "\n".join(lines) + "\n", timeout=20)
     return out.strip().split("\n")[0] if out.strip() else "unknown"
 
 
@@ -1113,7 +1165,11 @@ def check_core(ctx, M, c, seg, frames, sig, concrete, out):
         try:
             pt = N2.to_plain(e, inv)
         except N2.Unmapped as ex:
-            ctx.violation(classify(M, c, "full-core", seg), "the full unsat core mentions %s" % ex, replay)
+            if ex.what == "symbol" and re.match(r"^\.(ite|purify|frame)", ex.name):
+                sample("full-core:internal-symbol", dict(case="full unsat core", script=concrete, printed=seg))
+                ctx.violation("full-core:internal-symbol", "the full unsat core contains the internal auxiliary symbol %r, which no reader knows: %r" % (ex.name, seg[:300]), replay)
+            else:
+                ctx.violation(classify(M, c, "full-core", seg), "the full unsat core mentions %s" % ex, replay)
             return
         verdicts = [z3_equiv(c, decls, pt, a) for a in asserts]
         if "unsat" not in verdicts:
@@ -1160,7 +1216,7 @@ def check_itp(ctx, M, c, seg, frames, sig, concrete, out):
 
     def unsat(fs):
         lines = ["(set-logic %s)" % c.logic] + decls + ["(assert %s)" % smtlib.sx_str(f) for f in fs] + ["(check-sat)"]
-        rc, o = vlib.run_ref("z3", "\n".join(lines) + "\n", timeout=20)
+        rc, o = run_ref("z3", "\n".join(lines) + "\n", timeout=20)
         return o.strip().split("\n")[0] if o.strip() else "unknown"
     v1 = unsat([a, ["not", itp]])
     v2 = unsat([itp, b])
@@ -1196,7 +1252,7 @@ def check_dumps(ctx, M, c, base, qs, concrete, out):
     inv = c.ren.inverse()
     try:
         for fi, path in enumerate(files):
-            text = open(path, errors="replace").read()
+            text = open(path, "rb").read().decode("utf-8", errors="replace")
             replay = dict(script=concrete, dumped_file=text, output=out)
             ctx.case(key=("dump", text), nontrivial=True, kind="dump-file:%s" % c.logic)
             if fi >= len(checks):
@@ -1238,7 +1294,7 @@ def check_dumps(ctx, M, c, base, qs, concrete, out):
                 continue
             # opensmt reads its own dump and answers the same
             want = None
-            rc, o, e = vlib.run_opensmt(text, timeout=30)
+            rc, o, e = run_osmt(text, timeout=30)
             ans = [l for l in o.strip().split("\n") if l in ("sat", "unsat", "unknown")]
             orig = [l.strip() for l in out.split("\n") if l.strip() in ("sat", "unsat", "unknown")]
             if "(error" in o or rc != 0 or not ans or (fi < len(orig) and ans[0] != orig[fi]):
@@ -1276,10 +1332,10 @@ def check_dumps(ctx, M, c, base, qs, concrete, out):
                 if not baseline_ok(c, M, tool, concrete, []):
                     ctx.count("foreign:%s:n/a(input names not accepted)" % tool)
                     continue
-                rc2, o2 = vlib.run_ref(tool, text, timeout=20)
+                rc2, o2 = run_ref(tool, text, timeout=20)
                 ctx.count("foreign:%s:checked" % tool)
                 if "error" in o2.lower():
-                    sg = "dump-query:internal-symbol-declared" if re.search(r"\(declare-fun \.[a-z_]+\d* ", text) and "reserved" in o2 else classify(M, c, "dump-query", text, "foreign-reject")
+                    sg = "dump-query:internal-symbol-declared" if re.search(r"\(declare-fun \.[A-Za-z_0-9]+ ", text) and "reserved" in o2 else classify(M, c, "dump-query", text, "foreign-reject")
                     ctx.violation(sg + ":" + tool, "%s accepts the script but not the dumped query: %s" % (tool, o2.strip()[:200]), dict(replay, reread_output=o2))
                     break
     finally:
